@@ -459,7 +459,61 @@ def check_c15(pid, tier, seed, rep):
     return cov
 
 
-CHECKS = {"C09": check_c09, "C10": check_c10, "C12": check_c12, "C15": check_c15}
+def check_c16(pid, tier, seed, rep):
+    """Agents x options x prior states through the real CLI; registry/kong/README tables translated and re-proved."""
+    import stage_fs
+    regen_table("agents", "Agents_gen.v")
+    cov = prove(pid, rep)
+    tree, agents, readme_names, recs, helpout = stage_fs.c16_runs(tier)
+    nviol = 0
+    for r in recs:
+        probs = stage_fs.c16_oracle(tree, r)
+        if probs and nviol < 4:
+            nviol += 1
+            rep.violation("run-%d" % r["k"], dict(agent=r["agent"], options=r["opt"], prior_state=r["prior"], exit=r["rc"], stdout=r["stdout"], stderr=r["stderr"],
+                                                  expected_dir=r["expected_dir"], problems=probs,
+                                                  changed={p: [r["before"].get(p), r["after"].get(p)] for p in set(r["before"]) | set(r["after"]) if r["before"].get(p) != r["after"].get(p)},
+                                                  how="HOME=<home> kessoku llm-setup %s %s in <cwd> with the destination prepared as prior_state" % (r["agent"], r["opt"])),
+                          "%s %s on %s destination: %s" % (r["agent"], r["opt"], r["prior"], probs[0][:250]))
+    # the CLI offers exactly the documented subcommands, one per agent
+    offered = re.findall(r"^\s+llm-setup ([a-z0-9-]+)\s", helpout, flags=re.M)
+    reg = [a["name"] for a in agents]
+    if sorted(offered) != sorted(readme_names) or sorted(offered) != sorted(reg) or len(set(offered)) != len(offered):
+        nviol += 1
+        rep.violation("subcommands", dict(offered=offered, documented=readme_names, registry=reg, help=helpout[-1500:]),
+                      "CLI subcommands %s differ from documented agents %s / registry %s" % (sorted(offered), sorted(readme_names), sorted(reg)))
+    # installation directory: model (coq/Agents.v: install_dir) vs what the CLI reported
+    ok_runs = [r for r in recs if r["rc"] == 0 and r["reported"]]
+    def cs(x):
+        return '"' + x.replace('"', '""') + '"'
+    path = os.path.join(vlib.scratch(), "cases_dir.v")
+    with open(path, "w") as f:
+        f.write("From Coq Require Import String List. Import ListNotations. Open Scope string_scope.\nRequire Import Agents_gen Agents.\n")
+        f.write("Definition cases : list (nat * (string * string * bool * string * string * string)) := [\n" + ";\n".join(
+            "(%d, (%s, %s, %s, %s, %s, %s))" % (i, cs(r["agent"]), cs(r["custom"]), str(r["user"]).lower(), cs(r["home"]), cs(r["cwd"]), cs(r["reported"])) for i, r in enumerate(ok_runs)) + "].\n")
+        f.write("Definition M := Eval vm_compute in dir_mismatches cases.\nPrint M.\n")
+    rc, out = vlib.coqc_file(path, timeout=600)
+    m = re.search(r"M\s*=\s*\[(.*?)\]\s*:\s*list nat", out, re.S)
+    mism = []
+    if rc != 0 or not m:
+        rep.violation("corr-coq", dict(log=out[-2000:]), "installation-directory cases do not evaluate in Coq", True)
+    else:
+        mism = [int(x) for x in re.split(r"[;\s]+", m.group(1).strip()) if x]
+    if mism and not nviol:
+        r = ok_runs[mism[0]]
+        rep.violation("corr-dir-%d" % r["k"], dict(correspondence="coq/Agents.v: install_dir differs from the directory the CLI reports", agent=r["agent"], options=r["opt"], reported=r["reported"], disagreeing=len(mism)),
+                      "installation-directory model and CLI differ on %d runs, e.g. %s %s -> %s" % (len(mism), r["agent"], r["opt"], r["reported"]), True)
+    kinds = {}
+    for r in recs:
+        kinds["%s/%s" % (r["opt"], r["prior"])] = kinds.get("%s/%s" % (r["opt"], r["prior"]), 0) + 1
+    cov.update(evaluations=len(recs), programs=len(recs), disagreements_checked=len(ok_runs), correspondence_disagreements=len(mism), exhaustive=True,
+               input_distribution=dict(agents=len(agents), combinations=kinds, embedded_files=len(tree), subcommands_offered=offered),
+               samples=[dict(agent=r["agent"], opt=r["opt"], prior=r["prior"], exit=r["rc"], reported=r["reported"]) for r in recs[:3]],
+               trusted_base=TRUSTED + ["translator gentables (go/ast + README regexes) for registry, kong tags, documented agents and paths"])
+    return cov
+
+
+CHECKS = {"C09": check_c09, "C10": check_c10, "C12": check_c12, "C15": check_c15, "C16": check_c16}
 for _p in ("C01", "C02", "C03", "C05", "C06", "C07", "C08"):
     CHECKS[_p] = check_layer_ab
 
